@@ -651,3 +651,79 @@ def family(crate, body, depth=0):
 
 def fam_calls(fam, name=None, pat=None):
     return [(b, bb, t) for b in fam for bb, t in b.calls(pat=pat, name=name)]
+
+
+# ---------------------------------------------------------------- value locations: a parameter, or a field of a parameter struct
+def loc_of(term):
+    """(arg number, (field names..)) if the term is a parameter or a (nested) field of one, through refs/derefs; else None"""
+    t = term
+    fields = []
+    for _ in range(12):
+        if not isinstance(t, tuple) or not t:
+            return None
+        if t[0] in ('ref', 'deref'):
+            t = t[1]
+        elif t[0] == 'field' and isinstance(t[2], str):
+            fields.append(t[2])
+            t = t[1]
+        elif t[0] == 'arg':
+            return (t[1], tuple(reversed(fields)))
+        else:
+            return None
+    return None
+
+
+def locs_of_type(crate, body, pat):
+    """where a value of a type matching `pat` enters `body`: its parameters, and the fields of parameters that are (references
+    to) structs defined in this crate — `settings.max_message_size` is as good as a `max_message_size` parameter"""
+    rx = re.compile(pat) if isinstance(pat, str) else pat
+    out = []
+    for n in range(1, body.argc + 1):
+        ty = body.ty(n)
+        if rx.search(ty):
+            out.append((n, ()))
+            continue
+        base = re.sub(r"^&('\w+ )?(mut )?", '', ty)
+        base = re.sub(r'<.*$', '', base)
+        if '::' not in base:
+            continue
+        try:
+            ad = crate.adt(base)
+        except CheckError:
+            continue
+        if ad.get('kind') != 'struct':
+            continue
+        for f in ad['variants'][0]['fields']:
+            if rx.search(f['ty']):
+                out.append((n, (f['n'],)))
+    return out
+
+
+def loc_of_type(crate, body, pat):
+    r = locs_of_type(crate, body, pat)
+    if len(r) != 1:
+        raise CheckError('UNRECOGNISED: %d parameters / parameter fields of %s have a type matching %r' % (len(r), body.path, getattr(pat, 'pattern', pat)))
+    return r[0]
+
+
+def is_loc(term, loc):
+    return loc_of(strip_refs(term)) == loc
+
+
+def mentions_loc(term, loc):
+    return term_contains(term, lambda x: isinstance(x, tuple) and x and x[0] in ('arg', 'field') and loc_of(x) == loc)
+
+
+def loc_through_call(caller, call_term, callee_loc):
+    """the caller-side location that a callee-side location (parameter n, fields) denotes at this call, or the argument term"""
+    n, fields = callee_loc
+    if n - 1 >= len(call_term['args']):
+        return None
+    a = strip_refs(caller.origin(call_term['args'][n - 1]))
+    lo = loc_of(a)
+    if lo is not None:
+        return ('loc', (lo[0], lo[1] + tuple(fields)))
+    # an aggregate built at the call site: pick the field operand
+    if a and a[0] == 'agg' and fields and fields[0] in (a[1].get('fields') or []):
+        return ('term', a[2][a[1]['fields'].index(fields[0])])
+    return ('term', a) if not fields else None
